@@ -12,7 +12,7 @@ declare -A CHECKS=(
 for d in seeded/*/; do
   id=$(basename "$d")
   [ -n "$(git -C /repo status --porcelain -- src)" ] && { echo "/repo/src not clean"; exit 2; }
-  git -C /repo apply "$d/patch.diff" || { echo "$id: patch does not apply"; continue; }
+  git -C /repo apply "/verif/$d/patch.diff" || { echo "$id: patch does not apply"; continue; }
   res=""
   for c in ${CHECKS[$id]}; do
     out="$(./check "$c" --tier quick 2>&1)"; rc=$?
